@@ -141,7 +141,7 @@ pub enum Step {
     /// 1 CRYPTO at ever higher offsets, 2 one-byte STREAM frames behind gaps, 3 NEW_CONNECTION_ID each
     /// retiring everything before it, 4 PING packets with sparse packet numbers, 5 ACK frames with many
     /// ranges, 6 STOP_SENDING/MAX_STREAM_DATA for every stream index up to the limit, 7 NEW_CONNECTION_ID for
-    /// already retired sequence numbers
+    /// already retired sequence numbers, 8 packets full of empty DATAGRAM frames
     Flood { kind: u8, n: u16 },
 }
 
@@ -875,6 +875,11 @@ impl<'a> Run<'a> {
             if let Some(o) = bad("datagram_recv_buffered", pr.datagram_recv_buffered, cap as usize) {
                 return Err(o);
             }
+            // every buffered datagram holds a queue slot, whatever its length: the number of datagrams
+            // waiting for the application is bounded by the buffer size as well
+            if let Some(o) = bad("datagram_incoming", pr.datagram_incoming, cap as usize + 64) {
+                return Err(o);
+            }
         }
         // heap held by this case (victim, honest connection, harness bookkeeping) against what was injected
         let live = crate::alloc_count::live() - self.start_live;
@@ -1058,7 +1063,7 @@ impl<'a> Run<'a> {
                     if !self.victim_alive() {
                         break;
                     }
-                    match kind % 8 {
+                    match kind % 9 {
                         0 => {
                             let d = self.pw.p.packet(2, &[Frame::PathChallenge(mix(self.c.seed, j)), Frame::Padding(1200)], 0);
                             self.pw.send_from(crate::simnet::addr_v6(0x100 + j as u16, 9000 + j as u16), d);
@@ -1101,6 +1106,15 @@ impl<'a> Run<'a> {
                             tok[..8].copy_from_slice(&mix(self.c.seed ^ 0x70c, seq).to_le_bytes());
                             let d = self.pw.p.packet(2, &[Frame::NewConnectionId { seq, retire_prior_to: seq, cid: cid.clone(), reset_token: tok }], 0);
                             // later packets must carry an ID the victim still considers valid
+                            self.pw.send(d);
+                        }
+                        8 => {
+                            // packets filled with empty DATAGRAM frames (two bytes each on the wire)
+                            if self.c.cfg.dgram.is_none() {
+                                break;
+                            }
+                            let frames: Vec<Frame> = (0..500).map(|_| Frame::Datagram { data: vec![], has_len: true }).collect();
+                            let d = self.pw.p.packet(2, &frames, 0);
                             self.pw.send(d);
                         }
                         7 => {
@@ -1514,7 +1528,7 @@ fn arb_step() -> impl Strategy<Value = Step> {
         2 => (prop_oneof![prop::collection::vec(any::<u8>(), 1..60), prop::collection::vec(any::<u8>(), 1200..1300)], any::<bool>()).prop_map(|(bytes, other_addr)| Step::Garbage { bytes, other_addr }),
         2 => (m, any::<bool>()).prop_map(|(m, long_header)| Step::Mutated { m, long_header }),
         5 => arb_vop().prop_map(Step::Victim),
-        1 => (0u8..8, 1u16..400).prop_map(|(kind, n)| Step::Flood { kind, n }),
+        1 => (0u8..9, 1u16..400).prop_map(|(kind, n)| Step::Flood { kind, n }),
         2 => prop_oneof![1u32..50_000, 50_000u32..3_000_000].prop_map(Step::Wait),
     ]
 }
